@@ -217,6 +217,60 @@ func runC17(cfg *Cfg, rec *ev.Rec) {
 		runHeap(encs, scs)
 		rec.Eval("msm-direct", "msm-direct/common-factor")
 	}
+	// residual-scalar magnitude sweep: the final exponentiation (and, on the
+	// early-collapse path, the partial one) is driven with a residual scalar of
+	// every bit length, in particular lengths of the form k*BitsPerLimb + 1
+	item := 0
+	for b := 1; b <= 252; b++ {
+		if !cfg.mine(item) {
+			item++
+			continue
+		}
+		item++
+		g := new(big.Int).Lsh(one, uint(b-1))
+		if b > 1 {
+			g.Add(g, gen.RandBelow(rng, new(big.Int).Lsh(one, uint(b-1))))
+		}
+		// (i) early collapse: s0 = 0 and a single non-zero leading scalar g; one
+		// non-zero randomiser whose bit length is swept as well
+		n := 2 + rng.Intn(3)
+		count := 2*n + 1
+		scs := make([]*big.Int, count)
+		for i := range scs {
+			scs[i] = big.NewInt(0)
+		}
+		j := rng.Intn(n)
+		scs[1+j] = new(big.Int).Mod(g, ref.L)
+		rb := 1 + (b*127)/252
+		r := new(big.Int).Lsh(one, uint(rb-1))
+		if rb > 1 {
+			r.Add(r, gen.RandBelow(rng, new(big.Int).Lsh(one, uint(rb-1))))
+		}
+		scs[n+1+j] = r
+		encs := make([][]byte, count)
+		for i := range encs {
+			encs[i] = pool[rng.Intn(len(pool))]
+		}
+		if simulate(scs, count) >= 0 {
+			runHeap(encs, scs)
+			rec.Eval("msm-direct", "msm-direct/residual-magnitude-early-collapse")
+			rec.Class(fmt.Sprintf("msm-direct/partial-scalar-bits=%s", bitClass(b)), 1)
+		}
+		// (ii) ordinary termination on a residual scalar g (all scalars are
+		// multiples of g with small coprime cofactors), possible while g*d < 2^128
+		if b <= 118 {
+			cof := []int64{1, 2, 3, 5, 7, 11, 13, 17, 19}
+			for i := range scs {
+				scs[i] = new(big.Int).Mul(g, big.NewInt(cof[rng.Intn(len(cof))]))
+			}
+			scs[1] = new(big.Int).Set(g)
+			if simulate(scs, count) >= 0 {
+				runHeap(encs, scs)
+				rec.Eval("msm-direct", "msm-direct/residual-magnitude-final")
+				rec.Class(fmt.Sprintf("msm-direct/final-scalar-bits=%s", bitClass(b)), 1)
+			}
+		}
+	}
 	// known finding D4: one fixed witness of the family (exactly one non-zero
 	// randomiser and s0 = 0), reported as KNOWN-FINDING only if it still fails
 	if cfg.Shard == 0 {
@@ -246,6 +300,11 @@ func runC17(cfg *Cfg, rec *ev.Rec) {
 		fallbackBatch(rng, rec, it)
 	}
 	rec.Sample(map[string]interface{}{"layout": mon.Layout, "direct_heaps": nh, "api_batches": nb})
+}
+
+func bitClass(b int) string {
+	lo := ((b - 1) / 32) * 32
+	return fmt.Sprintf("%d-%d", lo+1, lo+32)
 }
 
 func bucket(k, n int) string {
